@@ -376,6 +376,13 @@ class Packed:
         p.slots = {q: a * s for q, a in self.slots.items()}
         return p
 
+    __mul__ = __rmul__
+
+    def __truediv__(self, s):
+        p = Packed()
+        p.slots = {q: a / s for q, a in self.slots.items()}
+        return p
+
     def reshape(self, *shape):
         """v.reshape(-1, neq): a VIEW with one column per variable, column q == v[q::neq]"""
         if len(shape) == 1 and isinstance(shape[0], tuple):
@@ -505,6 +512,10 @@ class Elem:
     def __add__(self, o):
         if isinstance(o, EpsVal) and self.pert is None:
             return Elem(self.arr, self.idx, o)
+        if isinstance(o, (int, Fraction)) and not isinstance(o, bool) and o != 0 and self.pert is None:
+            e = EpsVal(o, -1, False, False)        # an ABSOLUTE perturbation (a literal), not relative to the data
+            e.absolute = True
+            return Elem(self.arr, self.idx, e)
         raise AnalysisError("unsupported element arithmetic")
 
     __radd__ = __add__
@@ -590,6 +601,19 @@ class DataCond:
 
 class _NeedPolicy(Exception):
     pass
+
+
+class VarMajor:
+    """per-equation arrays laid end to end (np.ravel / concatenate of the list): variable-major order"""
+    def __init__(self, arrs, where):
+        self.arrs, self.where = arrs, where
+
+    def _scaled(self, o):
+        return VarMajor(self.arrs, self.where)
+    __mul__ = __rmul__ = __truediv__ = _scaled
+
+    def __neg__(self):
+        return self
 
 
 class DataVal:
@@ -874,6 +898,10 @@ class AffInterp:
             if isinstance(v, tuple) and v and v[0] in ("jacview", "rolled"):
                 v = ColCopy("np.roll of other columns" if v[0] == "rolled" else "a copy of other columns", "; ".join(self._idx_path or []))
             o.stores.append((idx, v, "%s:%d" % (func.qualname, node.lineno)))
+        elif isinstance(o, AArr) and idx == slice(None, None, None) and isinstance(v, (int, Fraction)) and v == 0:
+            o.form, o.kinds = {}, frozenset()            # arr[:] = 0 : the array object now holds zeros
+        elif isinstance(o, AArr) and idx == slice(None, None, None) and isinstance(v, AArr):
+            o.form, o.kinds = dict(v.form), v.kinds
         else:
             raise AnalysisError("%s:%d unsupported item store" % (func.qualname, node.lineno))
 
@@ -910,6 +938,12 @@ class AffInterp:
             raise AnalysisError("unsupported augmented assignment")
 
     def inplace(self, op, cur, rhs, func, st):
+        if isinstance(cur, Packed) and isinstance(rhs, VarMajor) or isinstance(rhs, Packed) and isinstance(cur, VarMajor):
+            vm = rhs if isinstance(rhs, VarMajor) else cur
+            e = AnalysisError("%s:%d interleaved vector combined with a variable-major one" % (func.qualname, st.lineno))
+            e.violation = ("LAYOUT-INTERLEAVE", func.qualname, "the packed vector of the linear system is interleaved (entry q + neq*i is variable q of cell i, as the stores [q::neq] say) but %s lays the per-equation arrays end to end (all cells of variable 0, then variable 1 ...): for neq > 1 every entry is added to the wrong unknown (scalar models are unaffected)" % vm.where,
+                           "varmajor", {"C06", "C01", "C04"})
+            raise e
         try:
             if isinstance(cur, AArr):
                 if isinstance(op, ast.Add):
@@ -1020,6 +1054,10 @@ class AffInterp:
             return o.copy
         if isinstance(o, Packed) and a == "reshape":
             return o.reshape
+        if isinstance(o, (DataVal, JacMat, Op)) and a in ("max", "min", "mean", "sum", "std"):
+            return lambda *x, **k: DataVal("%s of the matrix" % a)
+        if isinstance(o, tuple) and o and o[0] == "absarr" and a in ("max", "min", "mean", "sum"):
+            return lambda *x, **k: DataVal("%s|data|" % a)
         if isinstance(o, CArr) and a == "size":
             return o.size
         if isinstance(o, list) and a == "append":
@@ -1166,6 +1204,8 @@ class AffInterp:
             raise AnalysisError("%s:%d unsupported operands: %s" % (func.qualname, node.lineno, e))
 
     def binop(self, op, a, b):
+        if isinstance(a, DataVal) or isinstance(b, DataVal):
+            return a if isinstance(a, DataVal) else b
         if isinstance(a, TimeVal) or isinstance(b, TimeVal):
             if isinstance(op, ast.Add):
                 return a + b
@@ -1301,6 +1341,8 @@ class AffInterp:
             return DataCond(unparse(node))
         if base in ("min", "amin", "max", "amax", "linalg.norm", "norm", "mean", "abs", "absolute") and args and isinstance(args[0], (JacMat, Op, DataVal)):
             return DataVal(unparse(node))           # magnitude of the matrix / of a data-derived scalar
+        if base in ("ravel", "concatenate", "hstack") and args and isinstance(args[0], (list, tuple)) and args[0] and all(isinstance(x, AArr) for x in args[0]):
+            return VarMajor(list(args[0]), "%s:%d `%s`" % (func.qualname, ln, unparse(node)[:50]))
         if base in ("min", "amin"):
             return self.dtred("min", args[0])
         if base in ("max", "amax"):
